@@ -65,7 +65,7 @@ elem_to_value!(h12c_elem_u32, u32, Uint32, |x| x);
 // @harness h12c_elem_f64 tier=quick props=C12
 // @bounds none: all 2^64 bit patterns (what a Float64Array / DataView can hold)
 // @domain ∀ bits∈u64: JsValue::from(TypedArrayElement::Float64(f64::from_bits(bits)))
-// @claim the result is a Float64 Number: NaN for every NaN payload (never a tagged non-number), bit-identical otherwise
+// @claim the result is a Number: NaN for every NaN payload (never a tagged non-number), the same value otherwise (−0 stays −0)
 // @stubs std::rt::thread_cleanup→{}
 #[kani::proof]
 #[kani::stub(std::rt::thread_cleanup, noop)]
@@ -74,8 +74,11 @@ fn h12c_elem_f64() {
     let v = JsValue::from(TypedArrayElement::Float64(f64::from_bits(bits)));
     let r = crate::value::verif_kani_mod_pubhelp::read_number(&v);
     assert!(r.is_some(), "verif: a Float64 element reads back as a Number for every bit pattern");
-    let (is_int, _iv, fb) = r.unwrap();
-    assert!(!is_int && vm::same_value_bits(fb, bits), "verif: Float64 element value is preserved (NaN stays NaN)");
+    // (which Number representation is chosen is not observable; only the value is)
+    let (is_int, iv, fb) = r.unwrap();
+    let got = if is_int { f64::from(iv).to_bits() } else { fb };
+    assert!(vm::same_value_bits(got, bits), "verif: Float64 element value is preserved (NaN stays NaN, -0 stays -0)");
+    kani::cover!(bits == 0x8000_0000_0000_0000, "-0");
     kani::cover!((bits >> 48) == 0x7FFC, "NaN payload coinciding with the object tag");
     kani::cover!((bits >> 48) == 0xFFF9, "negative NaN payload coinciding with the int32 tag");
     kani::cover!(true, "reaches end");
@@ -85,7 +88,7 @@ fn h12c_elem_f64() {
 // @harness h12c_elem_f32 tier=quick props=C12
 // @bounds none: all 2^32 bit patterns
 // @domain ∀ bits∈u32: JsValue::from(TypedArrayElement::Float32(f32::from_bits(bits)))
-// @claim a Float64 Number SameValue to the widened f32 (NaN stays NaN)
+// @claim a Number SameValue to the widened f32 (NaN stays NaN, −0 stays −0)
 // @stubs std::rt::thread_cleanup→{}
 #[kani::proof]
 #[kani::stub(std::rt::thread_cleanup, noop)]
@@ -95,8 +98,9 @@ fn h12c_elem_f32() {
     let v = JsValue::from(TypedArrayElement::Float32(f));
     let r = crate::value::verif_kani_mod_pubhelp::read_number(&v);
     assert!(r.is_some(), "verif: a Float32 element reads back as a Number for every bit pattern");
-    let (is_int, _iv, fb) = r.unwrap();
-    assert!(!is_int && vm::same_value_bits(fb, f64::from(f).to_bits()), "verif: Float32 element is widened losslessly");
+    let (is_int, iv, fb) = r.unwrap();
+    let got = if is_int { f64::from(iv).to_bits() } else { fb };
+    assert!(vm::same_value_bits(got, f64::from(f).to_bits()), "verif: Float32 element is widened losslessly (-0 stays -0)");
     kani::cover!(f.is_nan(), "f32 NaN");
     kani::cover!(true, "reaches end");
     forget(v);
